@@ -243,6 +243,7 @@ def run_check(pid, modname, tier, seed):
     known_seen = {}
     harness_errors = []
     capped = 0
+    capped_names = []
     timeouts = 0
     extra = {}
     n_cases = 0
@@ -269,6 +270,7 @@ def run_check(pid, modname, tier, seed):
             samples.append(res["sample"])
         if res.get("capped"):
             capped += 1
+            capped_names.append((str(res.get("nontrivial")) + ": " + str(res.get("capped_note", "cap reached")))[:260])
         for k, v in res.get("extra", {}).items():
             if isinstance(v, (int, float)):
                 extra[k] = extra.get(k, 0) + v
@@ -311,6 +313,7 @@ def run_check(pid, modname, tier, seed):
         "exhaustive": bool(getattr(mod, "EXHAUSTIVE", True)) and capped == 0,
         "cases": n_cases,
         "cases_capped": capped,
+        "capped_cases": capped_names[:20],
         "distinct_observed_outcomes": len(outcomes),
         "known_findings_reproduced": sorted(known_seen.keys()),
         "bounds": getattr(mod, "BOUNDS", {}).get(tier, ""),
